@@ -304,13 +304,35 @@ def _reads_of(stmts, var="data") -> list[str]:
 
 
 def loop_reads(tree) -> list[str]:
+    """keys of the batch read by the loop body — directly or inside private module-level helpers the batch is handed to
+    (followed transitively, whatever they are called) — and the calls that receive the whole batch otherwise"""
     fn = find_function(tree, "MRIModelEngine.reconstruct_volumes")
-    out = _reads_of(_loop(fn).body)
-    helper = find_function(tree, "_get_filename_from_batch")
-    arg = helper.args.args[0].arg
-    out += ["_get_filename_from_batch: " + r.replace(arg + "[", "data[", 1) if arg != "data" else "_get_filename_from_batch: " + r
-            for r in _reads_of(helper.body, arg)]
-    return out
+    out, todo, seen = set(), [(_loop(fn).body, "data")], set()
+    while todo:
+        stmts, var = todo.pop()
+        for r in _reads_of(stmts, var):
+            if r.startswith("call "):
+                call = ast.parse(r[5:], mode="eval").body
+                f = ast.unparse(call.func)
+                if "." not in f and f.startswith("_") and f not in seen:
+                    try:
+                        helper = find_function(tree, f)
+                    except Untranslatable:
+                        helper = None
+                    if helper is not None:
+                        # which parameter receives the batch
+                        params = [a.arg for a in helper.args.args]
+                        pos = [i for i, a in enumerate(call.args) if isinstance(a, ast.Name) and a.id == var]
+                        kw = [k.arg for k in call.keywords if isinstance(k.value, ast.Name) and k.value.id == var]
+                        names = [params[i] for i in pos if i < len(params)] + kw
+                        if len(names) == 1:
+                            seen.add(f)
+                            todo.append((helper.body, names[0]))
+                            continue
+                out.add(r.replace(f"({var}", "(data") if var != "data" else r)
+            else:
+                out.add(r.replace(var, "data", 1) if var != "data" else r)
+    return sorted(out)
 
 
 def target_facts(tree) -> list[str]:
@@ -407,44 +429,76 @@ def _exits(loop) -> str:
     return "none" if not found else " ".join(found)
 
 
+def _call_of(node, suffix):
+    for n in ast.walk(node):
+        if isinstance(n, ast.Call) and ast.unparse(n.func).endswith(suffix):
+            return n
+    return None
+
+
 def caller_facts(_tree=None) -> list[str]:
+    """who consumes the generator and how (temporaries resolved, names of locals irrelevant):
+    evaluate: the call it iterates, arity of the unpacked tuple, which component keys the metrics, which is appended to the
+    losses, no early exit; validation_loop: per dataset `self.evaluate(<loader expression>, loss_fns)` with the loader and
+    batch-sampler construction inlined; direct/inference.py: the predict call and the writer call; all call sites."""
     from ..gen import REPO
 
     out = []
-    rv = find_function(parse_file(REPO / M), "MRIModelEngine.reconstruct_volumes")
+    mt = parse_file(REPO / M)
+    rv = find_function(mt, "MRIModelEngine.reconstruct_volumes")
     out.append("reconstruct_volumes: early exits in the loop over the batches: " + _exits(_loop(rv)))
-    ev = find_function(parse_file(REPO / M), "MRIModelEngine.evaluate")
+    ev = find_function(mt, "MRIModelEngine.evaluate")
     for st in ast.walk(ev):
         if isinstance(st, ast.For) and "reconstruct_volumes" in ast.unparse(st.iter):
-            out.append(f"evaluate: for {ast.unparse(st.target)} in {ast.unparse(st.iter)}")
+            call = _call_of(st.iter, ".reconstruct_volumes")
+            out.append("evaluate: iterates " + c14_norm.norm_expr(call, c14_norm.local_env(ev.body, ev), mt))
             out.append("evaluate: early exits in the loop over the volumes: " + _exits(st))
+            # the element bound per iteration (an `enumerate` counter is irrelevant)
+            elem = st.target.elts[1] if isinstance(st.iter, ast.Call) and ast.unparse(st.iter.func) == "enumerate" \
+                and isinstance(st.target, ast.Tuple) else st.target
+            comp = {}
+            if isinstance(elem, ast.Tuple):
+                comp = {e.id: i for i, e in enumerate(elem.elts) if isinstance(e, ast.Name)}
             for s in st.body:
-                if isinstance(s, ast.Assign) and ast.unparse(s.value) == "output":
-                    out.append(f"evaluate: {ast.unparse(s.targets[0])}=output")
-                elif isinstance(s, ast.Assign) and ast.unparse(s.targets[0]).startswith("val_volume_metrics["):
-                    out.append(f"evaluate: {ast.unparse(s.targets[0])}={ast.unparse(s.value)}")
-                elif isinstance(s, ast.Expr) and ast.unparse(s.value).startswith("val_losses."):
-                    out.append("evaluate: " + ast.unparse(s.value))
-    vl = find_function(parse_file(REPO / "direct/engine.py"), "Engine.validation_loop")
+                if isinstance(s, ast.Assign) and isinstance(s.targets[0], ast.Tuple) and isinstance(s.value, ast.Name) \
+                        and isinstance(elem, ast.Name) and s.value.id == elem.id:
+                    comp = {e.id: i for i, e in enumerate(s.targets[0].elts) if isinstance(e, ast.Name)}
+            out.append(f"evaluate: the yielded tuple has {len(comp)} components")
+
+            def pos(e):
+                class R(ast.NodeTransformer):
+                    def visit_Name(self, n):
+                        return ast.Name(id=f"yielded[{comp[n.id]}]", ctx=n.ctx) if n.id in comp else n
+                import copy
+                return ast.unparse(R().visit(copy.deepcopy(e)))
+            for s in st.body:
+                if isinstance(s, ast.Assign) and isinstance(s.targets[0], ast.Subscript) and "metrics" in ast.unparse(s.targets[0].value):
+                    out.append(f"evaluate: per-volume metrics keyed by {pos(s.targets[0].slice)}")
+                elif isinstance(s, ast.Expr) and isinstance(s.value, ast.Call) and ast.unparse(s.value.func).endswith("losses.append"):
+                    out.append(f"evaluate: losses collect {pos(s.value.args[0])}")
+    et = parse_file(REPO / "direct/engine.py")
+    vl = find_function(et, "Engine.validation_loop")
     for st in ast.walk(vl):
         if isinstance(st, ast.For) and "validation_datasets" in ast.unparse(st.iter):
-            out.append(f"validation_loop: for {ast.unparse(st.target)} in {ast.unparse(st.iter)}")
             out.append("validation_loop: early exits in the loop over the datasets: " + _exits(st))
-            for s in st.body:
-                if isinstance(s, ast.Assign) and ast.unparse(s.targets[0]) in ("curr_batch_sampler", "curr_data_loader"):
-                    out.append(f"validation_loop: {ast.unparse(s.targets[0])}={ast.unparse(s.value)}")
-                elif isinstance(s, ast.Assign) and ast.unparse(s.value).startswith("self.evaluate("):
-                    out.append(f"validation_loop: {ast.unparse(s.targets[0])}={ast.unparse(s.value)}")
+            env = c14_norm.local_env(st.body, vl)
+            env = {k: v for k, v in env.items() if k != ast.unparse(st.target)}
+            call = _call_of(ast.Module(body=st.body, type_ignores=[]), "self.evaluate")
+            if call is None:
+                raise Untranslatable("validation_loop does not call self.evaluate")
+            txt = c14_norm.norm_expr(call, env, et).replace(ast.unparse(st.target), "DATASET")
+            out.append("validation_loop: per DATASET in validation_datasets: " + txt)
     inf = parse_file(REPO / "direct/inference.py")
-    for qual in ("inference_on_environment", "setup_inference_save_to_h5"):
-        fn = find_function(inf, qual)
-        for st in ast.walk(fn):
-            if isinstance(st, ast.Assign) and (".predict(" in ast.unparse(st.value) or "inference_on_environment(" in ast.unparse(st.value)):
-                out.append(f"{qual}: {ast.unparse(st.targets[0])}={ast.unparse(st.value)}")
-            elif isinstance(st, ast.Expr) and ast.unparse(st.value).startswith("write_output_to_h5("):
-                out.append(f"{qual}: {ast.unparse(st.value)}")
-            elif isinstance(st, ast.Assign) and ast.unparse(st.targets[0]) == "(batch_size, crop)":
-                out.append(f"{qual}: (batch_size, crop)={ast.unparse(st.value)}")
+    fn = find_function(inf, "inference_on_environment")
+    call = _call_of(fn, ".predict")
+    out.append("inference_on_environment: " + (c14_norm.norm_expr(call, None, inf) if call is not None else "no predict call"))
+    fn = find_function(inf, "setup_inference_save_to_h5")
+    for st in ast.walk(fn):
+        if isinstance(st, ast.Assign) and ast.unparse(st.targets[0]) == "(batch_size, crop)":
+            out.append(f"setup_inference_save_to_h5: (batch_size, crop)={ast.unparse(st.value)}")
+    for suffix in ("inference_on_environment", "write_output_to_h5"):
+        call = _call_of(fn, suffix)
+        out.append("setup_inference_save_to_h5: " + (c14_norm.norm_expr(call, None, inf) if call is not None else f"no {suffix} call"))
     # every call of reconstruct_volumes / write_output_to_h5 / predict in the package
     sites = []
     for p in sorted((REPO / "direct").rglob("*.py")):
